@@ -38,6 +38,24 @@ func init() {
 			e.Assumptions["rand.Int64N(n): arbitrary value in [0,n), panics iff n <= 0"] = true
 			return r
 		}
+		m["maps.clone"] = func(fr *frame, a []Value) Value {
+			i := a[0].(Iface)
+			src, _ := i.V.(*Map)
+			if src == nil {
+				return i
+			}
+			dst := &Map{kt: src.kt, vt: src.vt, idx: map[string]*entry{}}
+			for _, en := range src.ents {
+				ne := &entry{key: en.key, val: copyVal(en.val), ckey: en.ckey, conc: en.conc}
+				dst.ents = append(dst.ents, ne)
+				if ne.conc {
+					dst.idx[ne.ckey] = ne
+				} else {
+					dst.nsym++
+				}
+			}
+			return Iface{T: i.T, V: dst}
+		}
 		// math.Pow(x, y): fresh value r with r >= 1 (possibly +Inf) when x >= 1 and y >= 0, r = 1 when y = 0,
 		// r = x when y = 1; otherwise unconstrained.
 		m["math.Pow"] = func(fr *frame, a []Value) Value {
